@@ -49,3 +49,8 @@ CLAIMED['C20'] = (
  'For 3 (thorough 4) providers with every outcome assignment from {answer, exception, False/empty, AttributeError, missing method}, every strict priority order, max_errors 1..4, max_providers 1..3 CrossHair confirms over all paths: a returned value is the answer of the highest-priority answering provider, the call succeeds when fewer than max_errors failures precede it and fails otherwise; each wrapper (getbalance, getutxos, gettransaction(s), getrawtransaction, sendrawtransaction, blockcount, estimatefee, mempool, isspent) returns exactly the provider answer or the cached copy and passes failure on.',
  'Trusted: CrossHair/z3, the fakes and the fail-over specification in harness/ch/c20_common.py. Outside: the real SQL Cache class, real provider clients/HTTP, flaky providers, equal priorities. Listed findings: estimatefee falls back to the network default, isspent reports failure as unspent.',
  'DESIGN.md C20')
+CLAIMED['C02'] = (
+ 'symbolic execution of the real Input.verify, Transaction.sign and Transaction.verify (symx) with ECDSA abstracted to a validity matrix / token signatures and the digest as the uninterpreted hash of the real preimage; per-path SMT obligations',
+ 'Counting: for every validity matrix over n <= 3 (thorough 4) distinct keys and signatures and every m, Input.verify is True exactly when the signatures match m keys in key order. Placement: for every sequence of <= 3 (thorough 4) sign() calls with any listed key or none, the input verifies iff >= m distinct keys signed, signatures are in key order without duplicates; a foreign key never counts. Commitment: for the C01 transaction shapes, after signing, any single tampering (version, locktime, any outpoint, sequence, output value or script, segwit input amount, with every new value) makes the real Transaction.verify return False.',
+ 'Trusted: z3, proxy/shim layer, ECDSA abstraction, collision-free uninterpreted hash. Outside: fastecdsa verify itself (C13), taproot, duplicate keys in one input. Listed finding: output script that is the single byte 00 (shared with C01).',
+ 'DESIGN.md C02')
